@@ -241,6 +241,11 @@ func genPath(rt *rapid.T, label string, feat *[]string) string {
 	if space {
 		*feat = append(*feat, "path_with_space")
 	}
+	if rapid.IntRange(0, 7).Draw(rt, label+".trail") == 0 {
+		// a file name may end in a blank; sshd prints it as it is
+		s += " "
+		*feat = append(*feat, "path_trailing_space")
+	}
 	return s
 }
 
